@@ -36,6 +36,10 @@ pub enum Limit {
     ColumnName(usize),
     /// packable characters only / one unpackable character per pair
     StreamName(usize, bool),
+    /// n characters outside ASCII (0 three-byte '日', 1 two-byte 'é', 2 the
+    /// surrogate pair '😀') behind a one-letter prefix: the limit counts
+    /// UTF-16 units of the packed name, not bytes and not characters
+    StreamNameWide(usize, u8),
 }
 
 #[derive(Clone, Copy, Debug, PartialEq)]
@@ -205,6 +209,19 @@ fn approach(l: &Limit) -> Result<(Package<SharedBuf>, SharedBuf, Snapshot, std::
             }
             Ok((pkg, buf, before, r, if *n <= 31 { Expect::MustOk } else if *n > 64 { Expect::MustErr } else { Expect::Either }))
         }
+        Limit::StreamNameWide(n, which) => {
+            let (mut pkg, buf) = fresh()?;
+            let before = snap(&mut pkg)?;
+            let c = ['日', 'é', '😀'][*which as usize % 3];
+            let name: String = std::iter::once('n').chain(std::iter::repeat(c).take(*n)).collect();
+            let units = fmt::encode_name(&name, false).encode_utf16().count();
+            let r = (|| -> std::io::Result<()> {
+                let mut w = pkg.write_stream(&name)?;
+                w.write_all(b"payload")?;
+                w.flush()
+            })();
+            Ok((pkg, buf, before, r, if units <= 31 { Expect::MustOk } else { Expect::MustErr }))
+        }
         Limit::StreamName(n, mixed) => {
             let (mut pkg, buf) = fresh()?;
             let before = snap(&mut pkg)?;
@@ -276,6 +293,11 @@ fn cases(thorough: bool) -> Vec<Limit> {
     }
     for n in [30usize, 31, 32, 33] {
         v.push(Limit::StreamName(n, true));
+    }
+    for which in 0..3u8 {
+        for n in [14usize, 15, 16, 20, 21, 22, 29, 30, 31, 32] {
+            v.push(Limit::StreamNameWide(n, which));
+        }
     }
     if thorough {
         for (a, b) in [(1u32, 65535u32), (32768, 32768), (32768, 32769), (65536, 0), (0, 65537)] {
